@@ -427,11 +427,21 @@ func c08Check(c *harness.Ctx) {
 	}
 	lens = append(lens, 4097, 4098, 4099, 4100, 8192, 32767, 32768, 65535)
 	if th {
-		for l := 4101; l < 65535; l += 251 {
+		// every value of the 16-bit length field that is out of range
+		lens = lens[:0]
+		for l := 0; l <= 18; l++ {
+			lens = append(lens, l)
+		}
+		for l := 4097; l <= 65535; l++ {
 			lens = append(lens, l)
 		}
 	}
+	var sweepFaults []hdrFault // thorough: the exhaustive out-of-range sweep, one variant each
 	for _, l := range lens {
+		if th && l > 4100 && l < 65535 && l != 8192 && l != 32767 && l != 32768 {
+			sweepFaults = append(sweepFaults, hdrFault{wire.RawHeader(wire.GoodMarker, uint16(l), []byte{wire.TypeUpdate, wire.TypeKeepalive, wire.TypeOpen, wire.TypeNotification}[l%4]), nil})
+			continue
+		}
 		for _, t := range []byte{wire.TypeUpdate, wire.TypeKeepalive, wire.TypeOpen} {
 			faults = append(faults, hdrFault{wire.RawHeader(wire.GoodMarker, uint16(l), t), nil})
 		}
@@ -467,6 +477,13 @@ func c08Check(c *harness.Ctx) {
 					}
 				}
 			}
+		}
+	}
+	for fi, f := range sweepFaults {
+		cs := stimCase{Kind: "header-fault", State: []int{stOpenSent, stOpenConfirm, stEstablished}[fi%3], Inbound: fi%2 == 0,
+			Stimulus: hex.EncodeToString(f.hdr), Post: postUpd, Chunks: c08Chunkings[fi%len(c08Chunkings)], Expect: "notif", Admit: headerAdmit(f.hdr)}
+		if !run(cs, true) {
+			return
 		}
 	}
 	// in-range lengths with type UPDATE in Established: every body length is legal and delivered byte-exact
